@@ -169,7 +169,9 @@ PROPS = {
     "C11": {
         "theorems": ["C11_reports_model", "C11_duration", "C11_horizon", "C11_calendar", "C11_assigned_has_requirement",
                      "C11_unscheduled_no_assignment", "C11_task_iff_resource", "resourceSols_view", "busyOf_keys",
-                     "C02_busy_span"],
+                     "C02_busy_span", "C11_task_iff_resource_reachable", "reachable_wnodup", "C11_hord_of_fits",
+                     "C11_task_iff_resource_admitted"],
+        "modules": ["C11R"],
         "profiles": [("core", 1.0)],
         # "the reported interval is the one the requirement implies" rests on the requirement formulas (C02_busy_span)
         "relevant": lambda o: owner_in(o, ("req:",)),
